@@ -17,5 +17,6 @@ typedef struct mref {
     long retptr_off;
     unsigned char dest[AR_DATA];
 } mref_t;
+extern int g_model_noslack; /* the library under test was built without SAFECLIB_STR_NULL_SLACK */
 void ref_model(const row_t *row, const gcase_t *c, const unsigned char *dest_before, const unsigned char *src_before, mref_t *m);
 #endif
